@@ -8,7 +8,7 @@ WT=/tmp/evalwt_$ID; OUT=/verif/seeded/$ID
 rm -rf "$WT"; git -C /repo worktree prune; git -C /repo worktree add --detach "$WT" HEAD -q || exit 2
 mkdir -p "$OUT"; cp "$SRC/$M.diff" "$OUT/patch.diff"; cp "$SRC/${M}_demo.cpp" "$OUT/demo.cpp"; cp "$SRC/$M.json" "$OUT/agent_meta.json"
 SAN=""; grep -q "fsanitize" "$OUT/demo.cpp" "$OUT/agent_meta.json" && SAN="-fsanitize=address,undefined -fno-sanitize-recover=all"
-CX="g++ -std=c++17 -g $SAN -I$WT/Include $OUT/demo.cpp -o /tmp/demo_$ID"
+CX="g++ -std=c++17 -g -pthread $SAN -I$WT/Include $OUT/demo.cpp -o /tmp/demo_$ID"
 $CX 2>/tmp/demo_$ID.log || { echo "demo does not build on clean tree"; tail -3 /tmp/demo_$ID.log; }
 timeout 120 /tmp/demo_$ID >/dev/null 2>&1; CLEAN=$?
 git -C "$WT" apply --whitespace=nowarn "$OUT/patch.diff" || { echo "PATCH DOES NOT APPLY to current HEAD"; git -C /repo worktree remove --force "$WT"; exit 3; }
